@@ -71,7 +71,7 @@ class Memory(Backend):
         expire: float | None = None,
         exist: bool | None = None,
     ) -> bool:
-        if exist is not None and (key in self.store) is not exist:
+        if exist is not None and (await self._key_exist(key)) is not exist:
             return False
         if self._serializer:
             value = await self._serializer.encode(self, key=key, value=value, expire=expire)
